@@ -39,6 +39,11 @@ void the_operator(const Item& it, galois::UserContext<Item>& ctx) {
                        (unsigned long long)it.id, attempt, o);
     }
   }
+  // worklist push -> pop edge: the pusher wrote this item's cell before
+  // ctx.push (the caller before for_each for initial items)
+  if (w.cell[idx] != it.id)
+    verif::vfail("push-pop-payload", "item %llx popped by thread %d reads payload %llx written before its push",
+                 (unsigned long long)it.id, my_tid(), (unsigned long long)w.cell[idx]);
   int k      = P.conflicts ? P.nh_size(it.id) : 0;
   int nc     = P.nchildren(it.id, it.depth);
   int vab    = P.n_vaborts(it.id);
@@ -59,7 +64,14 @@ void the_operator(const Item& it, galois::UserContext<Item>& ctx) {
             p.id |= POISON;
             ctx.push(p);
           } else {
-            ctx.push(P.child(it, j)); // must vanish if a conflict aborts us
+            Item ch = P.child(it, j);
+            int ci;
+            {
+              Quiet q;
+              ci = w.B.index.find(ch.id)->second;
+            }
+            w.cell[ci] = ch.id;
+            ctx.push(ch); // must vanish if a conflict aborts us
           }
         }
     }
@@ -149,8 +161,16 @@ void the_operator(const Item& it, galois::UserContext<Item>& ctx) {
   }
   // pushes after the last acquire
   for (int j = 0; j < nc; ++j)
-    if (P.push_pos(it.id, j, k) == k)
-      ctx.push(P.child(it, j));
+    if (P.push_pos(it.id, j, k) == k) {
+      Item ch = P.child(it, j);
+      int ci;
+      {
+        Quiet q;
+        ci = w.B.index.find(ch.id)->second;
+      }
+      w.cell[ci] = ch.id;
+      ctx.push(ch);
+    }
   {
     Quiet q;
     w.B.end_clock[idx] = gsched_now();
